@@ -30,7 +30,7 @@ def plan(tier, seed):
     parts = []
     ob = "merged view == overlay view == fold; same record/patch identity; source unchanged (disk + ih5_meta + view); follow-up patch applies to merged container alike"
     cfgs = [("ax_k", 2, "ih5"), ("ax_k", 2, "mf"), ("ax", 3, "ih5"), ("ax_xk", 2, "ih5"), ("rootk", 2, "ih5")] if tier == "quick" else \
-           [("ax_k", 2, "ih5"), ("ax_k", 2, "mf"), ("ax", 3, "ih5"), ("ax", 3, "mf"), ("ax_k", 3, "ih5"), ("ab", 3, "ih5"), ("ax_xk", 2, "mf"), ("ax_xk", 3, "ih5"), ("rootk", 3, "mf")]
+           [("ax_k", 2, "ih5"), ("ax_k", 2, "mf"), ("ax", 3, "ih5"), ("ax", 3, "mf"), ("ax_xk", 2, "ih5"), ("ax_xk", 2, "mf"), ("rootk", 2, "ih5"), ("rootk", 2, "mf")]
     for u, n, c in cfgs:
         fus = range(8)
         if tier == "quick" and (n, c, u) != (2, "ih5", "ax_k"):
